@@ -102,7 +102,7 @@ RULES = {
 
 PROPS = {
     "C01": {
-        "rules": ["T1", "T2", "A5", "T9p", "T12", "D6", "W2", "T4", "T6", "N7", "D11", "A4", "A15"],
+        "rules": ["T1", "T2", "A5", "T9p", "T12", "D6", "W2", "T4", "T6", "N7", "D11", "A4", "A15", "N4"],
         "claim": "Decides the wiring clauses of C01, not the computed values: every operator spelling is wired, through the "
         "five tables lexer -> get_definition -> handle_parse_node -> execute_current_instruction -> perform_*, to the "
         "public runtime function and GarnishNumber method the language table gives it; the three dispatch matches "
@@ -110,7 +110,7 @@ PROPS = {
         "(A5: at the host boundary left = popped second; T9p: the builder emits every binary construct left operand first, the two "
         "reviewed right-first constructs Pair and ApplyTo having a runtime reader that takes its first pop as the left value); and every child build node inherits its parent's containing-expression entry, only a "
         "nested expression body and the tree root starting a new one (T12: a reapply re-enters the expression it is written in); and a call "
-        "returns into its caller's frame (D6: push_frame / pop_frame of BasicGarnishData encode and decode the frame chain inversely). Also (W2): a number stored by a program reads back as that number - the hash that alone keys SimpleGarnishData's constant table keeps Integer and Float apart. Also, as necessary conditions on what the operators compute: (T4) the logical instructions && || ^^ !! ?? classify every value type with exactly {False, Unit} false and leave a boolean, (T6) the four ordering instructions agree with the comparison table, (N7) no arithmetic method answers 'no result' because an intermediate step of a different operation overflowed. And (D11) each operand's build node sits at its own slot. And (A4) identifier lookup consults the input value - whatever its type - before the host. And (A15) sub-expression sequencing always hands the step's value on as the next input.",
+        "returns into its caller's frame (D6: push_frame / pop_frame of BasicGarnishData encode and decode the frame chain inversely). Also (W2): a number stored by a program reads back as that number - the hash that alone keys SimpleGarnishData's constant table keeps Integer and Float apart. Also, as necessary conditions on what the operators compute: (T4) the logical instructions && || ^^ !! ?? classify every value type with exactly {False, Unit} false and leave a boolean, (T6) the four ordering instructions agree with the comparison table, (N7) no arithmetic method answers 'no result' because an intermediate step of a different operation overflowed. And (D11) each operand's build node sits at its own slot. And (A4) identifier lookup consults the input value - whatever its type - before the host. And (A15) sub-expression sequencing always hands the step's value on as the next input. And (N4) number ordering takes its operands in order in every arm.",
     },
     "C02": {
         "rules": ["T3", "T13", "T17", "T18", "T19"],
@@ -225,14 +225,14 @@ PROPS = {
         "instruction it should point at. Root-stack exhaustion depends on program shape and is not decided. Also (G5): build() rejects every parse result in which a node is reachable twice - the validating walk has no iteration path that neither marks the node nor fails - so no node is built under two parents (the second build state would overwrite the first and leave its reserved jump-table entry unpatched). And (T20) the emitted stream is read back only by the root-closing code.",
     },
     "C20": {
-        "rules": ["D4", "W1", "W3", "W2", "W8", "W6", "T11"],
+        "rules": ["D4", "W1", "W3", "W2", "W8", "W6", "T11", "D3"],
         "claim": "Decides the index-provenance clause of C20: every index a build emits or reports (jump operands, expression values, the "
         "entry index, jump-table entries) originates from the data object's current table lengths or from its own add_* results, never "
         "from a literal or an absolute position (D4), and build mutates earlier state only through get_from_jump_table_mut on its own "
         "placeholders (W1); a constant built into a shared data object starts from an empty accumulator: every function that starts a "
         "string / byte-list / list accumulation stores a fresh Some(collection) on every path, never conditionally on what an earlier, "
         "possibly aborted, accumulation left in the field (W3, must-pass-through on the MIR CFG). That each program computes the same result "
-        "as when built alone is not decided. Also (W2): the hash that alone keys SimpleGarnishData's constant table separates every two numbers the type distinguishes (per-variant feeds or the discriminant), so a later program's literal cannot be handed an earlier program's different constant. Also (W8): SimpleGarnishData's constant table (hash -> address) is written only by the function that pushes the hashed value and records the address it was pushed at, so a program built later into the object (or into a clone of it) is never handed a cell that holds a different constant. Also (W6): BasicGarnishData's add_* / parse_add_* return the address a store primitive returned for the value it wrote, never one computed from stored indices - so a program built into an object with history (after an optimize, or with host-registered names) gets operands that name its own values. Also (T11): the scan that keeps a root's end instruction when a join point follows it enumerates exactly this build's jump-table entries (from the table length at the start of the build to the length now), so a program built into a shared object ends its roots as it does alone.",
+        "as when built alone is not decided. Also (W2): the hash that alone keys SimpleGarnishData's constant table separates every two numbers the type distinguishes (per-variant feeds or the discriminant), so a later program's literal cannot be handed an earlier program's different constant. Also (W8): SimpleGarnishData's constant table (hash -> address) is written only by the function that pushes the hashed value and records the address it was pushed at, so a program built later into the object (or into a clone of it) is never handed a cell that holds a different constant. Also (W6): BasicGarnishData's add_* / parse_add_* return the address a store primitive returned for the value it wrote, never one computed from stored indices - so a program built into an object with history (after an optimize, or with host-registered names) gets operands that name its own values. Also (T11): the scan that keeps a root's end instruction when a join point follows it enumerates exactly this build's jump-table entries (from the table length at the start of the build to the length now), so a program built into a shared object ends its roots as it does alone. Also (D3): the six push_to_*_block siblings hand reallocate_heap each block's size at that block's own position, so growing one table while another program is built does not shrink a table an earlier program uses.",
     },
     "C06": {
         "rules": ["A1", "A6", "D6", "T8", "A11", "D7", "T11"],
